@@ -43,6 +43,7 @@ pub fn vectors(args: &[String]) {
             json!([x, int64_hash(x), int64_hash_inverse(x), y, int32_hash(y), int32_hash_inverse(y)])
         })
         .collect();
+    crate::util::wd_pause();
     println!("{}", json!({ "cases": cases }));
 }
 
@@ -97,6 +98,7 @@ pub fn search(args: &[String]) {
             break;
         }
     }
+    crate::util::wd_pause();
     println!("{}", json!({ "tried": tried, "found": found }));
 }
 
